@@ -5,6 +5,7 @@
 import Torf.Lemmas.Codec
 import Torf.Lemmas.RoundTripBack
 import Torf.Lemmas.RoundTripPy
+import Torf.Lemmas.BencodeSmall
 import Torf.Model.ReadStream
 namespace Torf.C05
 open Torf Torf.Bencode Torf.Codec Torf.ReadStream
@@ -41,6 +42,18 @@ theorem C05_strict_iff (lim : Nat) (bs : Bytes) (v : BVal) (hs : small lim v = t
       · exact absurd h (by simp)
     · exact absurd h (by simp)
   · rintro ⟨hc, rfl⟩
+    exact parseStrict_ser lim v hc hs
+
+/-- The same without a side condition: what the decoder returns is always within the digit
+    limit (`parse_small`), so the conforming parser accepts `bs` with value `v` exactly when `v`
+    is canonical, within the limit, and `bs` is its serialisation. -/
+theorem C05_strict_iff_small (lim : Nat) (bs : Bytes) (v : BVal) :
+    parseStrict lim bs = some v ↔ (canon v = true ∧ small lim v = true ∧ ser v = bs) := by
+  constructor
+  · intro h
+    obtain ⟨hp, hc, hs⟩ := parseStrict_inv h
+    exact ⟨hc, parse_small _ _ _ hp, hs⟩
+  · rintro ⟨hc, hs, rfl⟩
     exact parseStrict_ser lim v hc hs
 
 /-- A byte string survives `decode_value` followed by `encode_value` unchanged, whether or not
@@ -92,8 +105,8 @@ example : canon (.dict [([97], .list [.int (-3), .bytes [255, 254]]), ([195, 169
 
 /-! ### read → dump -/
 
-/-- **`Torrent.read_stream(x).dump() == x`** for every canonical document `x` (a dictionary
-    `enc`, numerals within the digit limit) with UTF-8 keys at every level, `info.pieces` a byte
+/-- **`Torrent.read_stream(x).dump() == x`** for every canonical document `x` (accepted by the
+    conforming parser as the dictionary `enc`) with UTF-8 keys at every level, `info.pieces` a byte
     string, `info.private` absent or 0/1, `creation date` absent or a representable integer
     (`int(fromtimestamp(i).timestamp()) == i`), and either `validate=True` or an `info` key
     present (without validation `read_stream` *adds* an empty `info` dict to a file that has
@@ -102,13 +115,14 @@ example : canon (.dict [([97], .list [.int (-3), .bytes [255, 254]]), ([195, 169
     keys, value types and nesting are covered. -/
 theorem C05_dump_read (env : Env) (x : Bytes) (enc : List (Bytes × BVal)) (validate : Bool)
     (t : List (PyVal × PyVal))
-    (hx : parseStrict env.lim x = some (.dict enc)) (hs : small env.lim (.dict enc) = true)
+    (hx : parseStrict env.lim x = some (.dict enc))
     (hu : utf8Keys (.dict enc) = true)
     (hpieces : PiecesOk enc) (hpriv : PrivateOk enc) (hdate : DateOk env enc)
     (hinfo : validate = true ∨ (lookup kInfo enc).isSome = true)
     (hr : read env x validate = .ok t) :
     dump env t validate = .ok x := by
   obtain ⟨hp, hc, hser⟩ := parseStrict_inv hx
+  have hs := parse_small _ _ _ hp
   rw [read_eq] at hr
   split at hr
   · exact absurd hr (by simp)
@@ -152,12 +166,12 @@ theorem C05_dump_read_needs_info :
 /-- non-vacuity of `C05_dump_read` / `C05_read_encodes`: the document `rtX` (multi-byte key `é`,
     non-UTF-8 pieces and value, private 1, creation date 5, nested containers) satisfies every
     hypothesis and `read_stream` accepts it -/
-example : parseStrict rtEnv.lim rtX = some (.dict rtEnc) ∧ small rtEnv.lim (.dict rtEnc) = true ∧
+example : parseStrict rtEnv.lim rtX = some (.dict rtEnc) ∧
     utf8Keys (.dict rtEnc) = true ∧ PiecesOk rtEnc ∧ PrivateOk rtEnc ∧ DateOk rtEnv rtEnc ∧
     (∃ t, read rtEnv rtX true = .ok t) := by
   have hi : lookup kInfo rtEnc = some (.dict rtInfo) := by rfl
   refine ⟨(C05_strict_iff _ _ _ (by decide +kernel)).mpr ⟨by decide, by decide +kernel⟩,
-    by decide +kernel, by decide +kernel, ?_, ?_, ?_, exists_ok_of_toBool (by decide +kernel)⟩
+    by decide +kernel, ?_, ?_, ?_, exists_ok_of_toBool (by decide +kernel)⟩
   · intro ikvs p h1 h2
     rw [hi] at h1
     simp only [Option.some.injEq, BVal.dict.injEq] at h1
@@ -184,13 +198,13 @@ example : parseStrict rtEnv.lim rtX = some (.dict rtEnc) ∧ small rtEnv.lim (.d
     again — identical metainfo, no normalisation at all. -/
 theorem C05_read_dump_fixpoint (env : Env) (x : Bytes) (enc : List (Bytes × BVal))
     (validate : Bool) (t : List (PyVal × PyVal))
-    (hx : parseStrict env.lim x = some (.dict enc)) (hs : small env.lim (.dict enc) = true)
+    (hx : parseStrict env.lim x = some (.dict enc))
     (hu : utf8Keys (.dict enc) = true)
     (hpieces : PiecesOk enc) (hpriv : PrivateOk enc) (hdate : DateOk env enc)
     (hinfo : validate = true ∨ (lookup kInfo enc).isSome = true)
     (hr : read env x validate = .ok t) :
     ∃ bs, dump env t validate = .ok bs ∧ read env bs validate = .ok t :=
-  ⟨x, C05_dump_read env x enc validate t hx hs hu hpieces hpriv hdate hinfo hr, hr⟩
+  ⟨x, C05_dump_read env x enc validate t hx hu hpieces hpriv hdate hinfo hr, hr⟩
 
 /-- `C05_read_dump` with the export hypotheses stated on the *written document* `enc`
     (`bs` is canonical by `C06_canonical`; `hparse` names its parse): `pieces` a byte string,
@@ -255,7 +269,7 @@ theorem C05_read_dump_doc (env : Env) (t : List (PyVal × PyVal)) (validate : Bo
   have hinfo' : validate = true ∨ (lookup kInfo enc).isSome = true := Or.inr (by simp [hl])
   obtain ⟨hrep, hens, _⟩ := readDict_rep env enc validate t' hcn hun hpieces hpriv hdate hinfo'
     (hread validate ▸ hr1)
-  have hdump := C05_dump_read env bs enc validate t' hparse hsn hun hpieces hpriv hdate hinfo' hr1
+  have hdump := C05_dump_read env bs enc validate t' hparse hun hpieces hpriv hdate hinfo' hr1
   have henc' : encodeDict t' = .ok (.dict enc) :=
     encodeValue_dict_of_rep hrep (List.Perm.refl _) hc'.1
   have hib : ∀ ib, infoBytes env t = .ok ib → env.validate (.dict t') = true →
